@@ -2,7 +2,9 @@
 // cocls::signal<int> with real threads under the controlled scheduler (vsched): one collector thread
 // and one thread per arriving listener (coroutine on an emitter / connect() callback).
 //
-// header: {"form":"rvalue"|"lvalue","nemit":n,"kinds":{name:"prel"|"thrl"|"precbt"|"precbf"|"thrcbt"|"thrcbf"},
+// header: {"form":"rvalue"|"lvalue","nemit":n,"kinds":{name:"prel"|"thrl"|"hookl"|"precbt"|"precbf"|"thrcbt"|"thrcbf"},
+//          ("hookl": no signal at the start; that thread's coroutine awaits signal<int>::hook_up(fn) and fn hands the
+//           collector to the collector thread -- harness mark "handed" inside fn)
 //          "order":[pre-subscribed listeners in subscription order]}
 //          "fine":bool -- finest grain (spec/Signal/SignalFine.tla, vsched yield_after): the code after every
 //          visible operation is a step of its own; pending operations are then reported as pre:X / post:X
@@ -42,11 +44,30 @@ struct Seen {
 
 enum class Phase { fresh, awaiting, done };
 
+struct World;
+
+// registration function of hook_up(): hands the collector to the collector thread
+struct RegC {
+    World *w;
+    void operator()(collector_t c);
+};
+
+// the object returned by hook_up(), wrapped only to read what it keeps protected
+struct HProbe : signal_t::hook_up_emitter<RegC> {
+    using base_t = signal_t::hook_up_emitter<RegC>;
+    HProbe(base_t &&b) : base_t(std::move(b)) {}
+    const cocls::awaiter *node() const { return static_cast<const cocls::awaiter *>(this); }
+    std::weak_ptr<state_t> weak_state() const { return this->_wk_state; }
+};
+
 struct LState {
     std::string name;
     emitter_t em;
+    bool hooked = false;
+    std::optional<HProbe> hk;
     Phase phase = Phase::fresh;
     Seen seen;
+    const cocls::awaiter *node() const { return hooked ? (hk ? hk->node() : nullptr) : static_cast<const cocls::awaiter *>(&em); }
 };
 
 // a listener that does nothing between two signals except re-awaiting the emitter
@@ -54,8 +75,9 @@ static cocls::async<void> listener_body(LState &L) {
     for (;;) {
         L.phase = Phase::awaiting;
         try {
-            int &r = co_await L.em;
-            L.seen.push(r);
+            // (the operand must be a named lvalue: g++ 12 awaits a COPY of `*L.hk`)
+            if (L.hooked) { HProbe &e = *L.hk; int &r = co_await e; L.seen.push(r); }
+            else { int &r = co_await L.em; L.seen.push(r); }
         } catch (const cocls::await_canceled_exception &) {
             L.seen.push(CANCEL);
             break;
@@ -111,12 +133,12 @@ struct World {
 
     const cocls::awaiter *node_of(const std::string &name) {
         auto il = ls.find(name);
-        if (il != ls.end()) return static_cast<const cocls::awaiter *>(&il->second.em);
+        if (il != ls.end()) return il->second.node();
         return nullptr;
     }
     std::string who(const cocls::awaiter *n) {
         if (!n) return "null";
-        for (auto &kv : ls) if (static_cast<const cocls::awaiter *>(&kv.second.em) == n) return kv.first;
+        for (auto &kv : ls) if (kv.second.node() == n) return kv.first;
         // a connect() node is `class Awt : emitter { Fn _fn; }`: the live functor sits right behind the base
         const char *p = reinterpret_cast<const char *>(n) + sizeof(emitter_t);
         for (auto &kv : cbs) {
@@ -135,6 +157,17 @@ struct World {
         return "unknown";
     }
 };
+
+void RegC::operator()(collector_t c) {
+    World &w = *this->w;
+    w.col.emplace(std::move(c));
+    w.wk = w.col->_state;
+    w.raw = w.col->_state.get();
+    // what the other arriving threads need: their emitter / their own signal object
+    for (auto &kv : w.ls) if (!kv.second.hooked) kv.second.em = signal_t(*w.col).get_emitter();
+    for (auto &kv : w.tsig) kv.second.emplace(signal_t(*w.col));
+    vsched::mark("handed");     // from here on the collector thread may emit, while this thread is still inside fn
+}
 
 static std::string pend_site(World &w, const std::string &name) {
     int t = w.tid[name];
@@ -158,6 +191,13 @@ static std::string pend_of(World &w, const std::string &name) {
 
 static J project(World &w) {
     J m = J::map();
+    if (!w.raw) {
+        // hook_up(): the signal is created inside the first await_suspend; until fn is called only the emitter knows it
+        for (auto &kv : w.ls) if (kv.second.hooked && kv.second.hk) {
+            auto wk = kv.second.hk->weak_state();
+            if (auto sp = wk.lock()) { w.wk = wk; w.raw = sp.get(); }
+        }
+    }
     long refs = w.wk.use_count();
     m.set("refs", refs);
     std::vector<std::string> chain;
@@ -229,7 +269,23 @@ static void run(const Scenario &sc, Reporter &rep) {
         w.form = sc.hdr.at("form").as_str("rvalue");
         w.nemit = (int) sc.hdr.at("nemit").as_int();
         for (auto &kv : sc.hdr.at("kinds").m) w.kind[kv.first] = kv.second.s;
-        {
+        bool hook = false;
+        for (auto &kv : w.kind) hook = hook || kv.second == "hookl";
+        if (hook) {
+            for (auto &kv : w.kind) {
+                const std::string &k = kv.second;
+                if (k == "thrl" || k == "hookl") {
+                    LState &L = w.ls[kv.first];
+                    L.name = kv.first;
+                    L.hooked = k == "hookl";
+                } else {
+                    CbState &c = w.cbs[kv.first];
+                    c.name = kv.first;
+                    c.answer = k == "thrcbt";
+                    w.tsig[kv.first];       // filled by the registration function
+                }
+            }
+        } else {
             signal_t sig;
             w.col.emplace(sig.get_collector());
             w.wk = w.col->_state;
@@ -283,7 +339,14 @@ static void run(const Scenario &sc, Reporter &rep) {
         });
         for (auto &kv : w.kind) {
             std::string name = kv.first, k = kv.second;
-            if (k == "thrl") {
+            if (k == "hookl") {
+                w.tid[name] = w.sched.spawn([pw, name] {
+                    World &w = *pw;
+                    vsched::mark("start");
+                    w.ls[name].hk.emplace(signal_t::hook_up(RegC{&w}));
+                    listener_body(w.ls[name]).detach();
+                });
+            } else if (k == "thrl") {
                 w.tid[name] = w.sched.spawn([pw, name] {
                     World &w = *pw;
                     vsched::mark("start");
